@@ -73,10 +73,14 @@ static void set_fail(const char * t)
 	failmode = (wrap_fail_at != 0);
 }
 
+/* entering library code: errno holds junk from "earlier" (ptrheap.h: failures "set errno") */
+#include <errno.h>
+#define LIB_ON() do { errno = EDOM; wrap_on = 1; } while (0)
+
 static void heap_min(struct ptrheap * H)
 {
 	struct rec * m;
-	wrap_on = 1; m = ptrheap_getmin(H); wrap_on = 0;
+	LIB_ON(); m = ptrheap_getmin(H); wrap_on = 0;
 	if (m) printf("%d", m->id); else printf("-");
 }
 
@@ -105,7 +109,7 @@ static void run_heap(char ** tok, int n)
 				void ** ex = malloc(N ? N * sizeof(void *) : 1);
 				memcpy(ex, ptrs, N * sizeof(void *)); free(ptrs); ptrs = ex;
 			}
-			wrap_on = 1;
+			LIB_ON();
 			if (op == 'C' || op == 'c')
 				H = ptrheap_create(compar, withcb ? setrc : NULL, &ctxmark, N, ptrs);
 			else
@@ -113,7 +117,7 @@ static void run_heap(char ** tok, int n)
 			wrap_on = 0;
 			if (H) for (j = 0; j < N; j++) ((struct rec *)ptrs[j])->live = 1;
 			else status = "fail";
-			free(ptrs);
+			drv_scribble_free(ptrs, N * sizeof(void *));	/* the array was an argument, not a loan */
 		} else if (H == NULL) {
 			printf("skip::-"); put_events(); continue;
 		} else if (op == 'A') {
@@ -122,31 +126,31 @@ static void run_heap(char ** tok, int n)
 			if (recs[id].live) { status = "skip"; }
 			else {
 				recs[id].key = key; recs[id].rc = (size_t)-1; recs[id].id = id;
-				wrap_on = 1; rc = ptrheap_add(H, &recs[id]); wrap_on = 0;
+				LIB_ON(); rc = ptrheap_add(H, &recs[id]); wrap_on = 0;
 				if (rc == 0) recs[id].live = 1; else status = "fail";
 			}
 		} else if (op == 'M') {
 			struct rec * m;
-			wrap_on = 1; m = ptrheap_getmin(H); wrap_on = 0;
+			LIB_ON(); m = ptrheap_getmin(H); wrap_on = 0;
 			if (!m) status = "skip";
-			else { wrap_on = 1; ptrheap_deletemin(H); wrap_on = 0; m->live = 0; }
+			else { LIB_ON(); ptrheap_deletemin(H); wrap_on = 0; m->live = 0; }
 		} else if (op == 'D') {
 			int id = atoi(t + 1);
 			if (!withcb || !recs[id].live) status = "skip";
-			else { wrap_on = 1; ptrheap_delete(H, recs[id].rc); wrap_on = 0; recs[id].live = 0; }
+			else { LIB_ON(); ptrheap_delete(H, recs[id].rc); wrap_on = 0; recs[id].live = 0; }
 		} else if (op == 'U') {
 			char * p = t + 1; int id = (int)strtol(p, &p, 10); long d = strtol(p + 1, NULL, 10);
 			if (!withcb || !recs[id].live) status = "skip";
-			else { recs[id].key += d; wrap_on = 1; ptrheap_increase(H, recs[id].rc); wrap_on = 0; }
+			else { recs[id].key += d; LIB_ON(); ptrheap_increase(H, recs[id].rc); wrap_on = 0; }
 		} else if (op == 'L') {
 			char * p = t + 1; int id = (int)strtol(p, &p, 10); long d = strtol(p + 1, NULL, 10);
 			if (!withcb || !recs[id].live) status = "skip";
-			else { recs[id].key -= d; wrap_on = 1; ptrheap_decrease(H, recs[id].rc); wrap_on = 0; }
+			else { recs[id].key -= d; LIB_ON(); ptrheap_decrease(H, recs[id].rc); wrap_on = 0; }
 		} else if (op == 'T') {
 			long d = strtol(t + 2, NULL, 10); struct rec * m;
-			wrap_on = 1; m = ptrheap_getmin(H); wrap_on = 0;
+			LIB_ON(); m = ptrheap_getmin(H); wrap_on = 0;
 			if (!m) status = "skip";
-			else { m->key += d; wrap_on = 1; ptrheap_increasemin(H); wrap_on = 0; }
+			else { m->key += d; LIB_ON(); ptrheap_increasemin(H); wrap_on = 0; }
 		} else if (op == 'G') {
 			;
 		} else status = "skip";
@@ -155,7 +159,7 @@ static void run_heap(char ** tok, int n)
 		put_events();
 	}
 	begin_op();
-	wrap_on = 1; ptrheap_free(H); wrap_on = 0;
+	LIB_ON(); ptrheap_free(H); wrap_on = 0;
 	printf("%send", n > 2 ? " " : ""); put_events();
 	printf(":live=%ld:reqs=%lu%s%s\n", wrap_nlive, wrap_reqs, wrap_bad ? ":badfree" : "", badcookie ? ":badcookie" : "");
 }
@@ -170,7 +174,7 @@ static void parse_tv(const char * s, struct timeval * tv)
 static void tq_min(struct timerqueue * Q)
 {
 	const struct timeval * m;
-	wrap_on = 1; m = timerqueue_getmin(Q); wrap_on = 0;
+	LIB_ON(); m = timerqueue_getmin(Q); wrap_on = 0;
 	if (m) printf("%ld.%ld", (long)m->tv_sec, (long)m->tv_usec); else printf("-");
 }
 
@@ -180,7 +184,7 @@ static void run_tq(char ** tok, int n)
 	set_fail(tok[1]);
 	for (i = 0; i < MAXID; i++) recs[i].live = 0;
 	begin_op();
-	wrap_on = 1; Q = timerqueue_init(); wrap_on = 0;
+	LIB_ON(); Q = timerqueue_init(); wrap_on = 0;
 	printf("%s::-", Q ? "ok" : "fail"); put_events();
 	for (i = 2; i < n; i++) {
 		char * t = tok[i]; char op = t[0]; const char * status = "ok"; char res[32] = "";
@@ -194,26 +198,26 @@ static void run_tq(char ** tok, int n)
 				/* the timeval argument lives in its own exact-size block */
 				tv = malloc(sizeof(struct timeval)); parse_tv(p + 1, tv);
 				recs[id].id = id; recs[id].tv = *tv;
-				wrap_on = 1; c = timerqueue_add(Q, tv, &recs[id]); wrap_on = 0;
-				free(tv);
+				LIB_ON(); c = timerqueue_add(Q, tv, &recs[id]); wrap_on = 0;
+				drv_scribble_free(tv, sizeof(struct timeval));
 				if (c) { recs[id].live = 1; recs[id].cookie = c; } else status = "fail";
 			}
 		} else if (op == 'D') {
 			int id = atoi(t + 1);
 			if (!recs[id].live) status = "skip";
-			else { wrap_on = 1; timerqueue_delete(Q, recs[id].cookie); wrap_on = 0; recs[id].live = 0; }
+			else { LIB_ON(); timerqueue_delete(Q, recs[id].cookie); wrap_on = 0; recs[id].live = 0; }
 		} else if (op == 'U') {
 			char * p = t + 1; int id = (int)strtol(p, &p, 10); struct timeval * tv = malloc(sizeof(struct timeval));
 			parse_tv(p + 1, tv);
 			if (!recs[id].live || tv->tv_sec < recs[id].tv.tv_sec ||
 			    (tv->tv_sec == recs[id].tv.tv_sec && tv->tv_usec < recs[id].tv.tv_usec)) status = "skip";
-			else { recs[id].tv = *tv; wrap_on = 1; timerqueue_increase(Q, recs[id].cookie, tv); wrap_on = 0; }
-			free(tv);
+			else { recs[id].tv = *tv; LIB_ON(); timerqueue_increase(Q, recs[id].cookie, tv); wrap_on = 0; }
+			drv_scribble_free(tv, sizeof(struct timeval));
 		} else if (op == 'P') {
 			struct timeval * tv = malloc(sizeof(struct timeval)); struct rec * r;
 			parse_tv(t + 1, tv);
-			wrap_on = 1; r = timerqueue_getptr(Q, tv); wrap_on = 0;
-			free(tv);
+			LIB_ON(); r = timerqueue_getptr(Q, tv); wrap_on = 0;
+			drv_scribble_free(tv, sizeof(struct timeval));
 			if (r == NULL) strcpy(res, "-");
 			else if (r < recs || r >= recs + MAXID) strcpy(res, "badptr");
 			else { sprintf(res, "%d", r->id); r->live = 0; }
@@ -225,7 +229,7 @@ static void run_tq(char ** tok, int n)
 		put_events();
 	}
 	begin_op();
-	wrap_on = 1; timerqueue_free(Q); wrap_on = 0;
+	LIB_ON(); timerqueue_free(Q); wrap_on = 0;
 	printf(" end"); put_events();
 	printf(":live=%ld:reqs=%lu%s\n", wrap_nlive, wrap_reqs, wrap_bad ? ":badfree" : "");
 }
